@@ -130,9 +130,9 @@ Definition pinned_opinfo : opinfo_t := fun o =>
 Definition fixed_opinfo : opinfo_t := fun o =>
   match o with Coalesce => (6, ALeft) | _ => pinned_opinfo o end.
 
-Definition PREFIX_LEVEL : nat := 252.     (* u8::MAX - 3 *)
-Definition POSTFIX_LEVEL : nat := 253.
-Definition PRIMARY_LEVEL : nat := 254.
+Definition PREFIX_LEVEL : nat := 253.     (* u8::MAX - 2 *)
+Definition POSTFIX_LEVEL : nat := 254.
+Definition PRIMARY_LEVEL : nat := 255.
 
 Definition is_vwi (o : binop) : bool := match o with Via | Into | Where => true | _ => false end.
 Definition is_lambda (e : expr) : bool := match e with ELam _ _ => true | _ => false end.
